@@ -24,7 +24,7 @@ func main() {
 	}
 	dbreplay.Post = func() {
 		// failure paths (spec/Faults.tla): every call of the operation through the OS interface fails once
-		faults.Run(rep, args, faults.Select{Ops: []string{"rb_commit", "wal_commit", "import", "recover", "halt", "replica_apply", "replica_snapshot", "role_change"}, Monitors: []string{"checksum", "replica-checksum"}, Kinds: faults.LocalKinds})
+		faults.Run(rep, args, faults.Select{Ops: []string{"rb_commit", "wal_commit", "import", "recover", "halt", "replica_apply", "replica_snapshot", "role_change"}, Monitors: []string{"checksum", "replica-checksum", "posfile"}, Kinds: faults.LocalKinds})
 		t3.Stage(rep, args, map[string]bool{"C04": true})
 	}
 	// replicated applies, snapshots, restarts and drops: the cluster scripts with this property's monitors
